@@ -64,7 +64,7 @@ tree after the `name` callback, handed on by `toR`).  Theorems quantify over ALL
   `assign` statements of any shape whose bit pairs are in dependency order (alias lines fork → fork, constant sources; both
   pass-1.5 variants), both `branchforks` settings, UNRESOLVED circuit (an instance of kind `K` means what the simulator's kind
   table makes of `K`; for a library of primitives this is the function of the netlist; library substitution is C10
-  `resolve_sem`); NOT covered: multi-bit pin connections, 1-bit bus by base name, floating inputs / undriven outputs, assign pairs
+  `resolve_sem`, composed with these theorems in Props/C11Library.lean); NOT covered: multi-bit pin connections, 1-bit bus by base name, floating inputs / undriven outputs, assign pairs
   out of dependency order or onto a driven target (findings D23/D24).
   Hypotheses of the end-to-end theorems `orderOKB` / `forksOKB` / `linesDrivenB` are decidable conditions on (net, order); for
   bench they follow from the description (`bench_sched_hyps`, `bench_end_to_end_closed`: closed description over kinds the prefix
@@ -91,7 +91,11 @@ tree after the `name` callback, handed on by `toR`).  Theorems quantify over ALL
 * **Oracle** (harness/c11.py): truth table of the parsed + resolved circuit under the real `LogicSim(m=2)` against the
   generator's own evaluation of the netlist it rendered; port order; Verilog vs bench.  This decides violations.
   The step from "right connectivity" to "right Boolean function" (DESIGN `parsed_sem`) is now a theorem for bench and for the
-  Verilog fragment above; it stays oracle-only for Verilog modules outside the fragment and for `resolve_tlib_cells`. -/
+  Verilog fragment above; through `resolve_tlib_cells` it is a theorem for modules of the fragment over certified combinational
+  library cells (capstone Props/C11Library.lean: `verilog_parsed_sem_holes`, `verilog_resolved_rel`, `verilog_resolved_datasheet`,
+  `verilog_library_end_to_end` — text → parse → resolve → SimOps → LogicSim = the DATASHEET denotation `VModelLib` of the module;
+  tie `harness/c11.py: library_sem`); it stays oracle-only for Verilog modules outside the fragment and for library cells outside
+  those hypotheses (sequential / tri-state / tie cells, unconnected pins, substitutions that remove logic). -/
 namespace KV.C11
 open KV.Netlist
 
